@@ -413,10 +413,37 @@ func checkRapid(t *testing.T, property, check, rule string, draw func(rt *rapid.
 func safeRun(fn func(c *Case, st *Stats) string, c *Case, st *Stats) (msg string) {
 	defer func() {
 		if r := recover(); r != nil {
-			msg = fmt.Sprintf("panic: %v\n%s", r, trimStack(debug.Stack()))
+			stack := string(debug.Stack())
+			if panicInLibrary(stack) {
+				msg = fmt.Sprintf("panic: %v\n%s", r, trimStack([]byte(stack)))
+			} else {
+				msg = fmt.Sprintf("harness: the check itself panicked: %v\n%s", r, trimStack([]byte(stack)))
+			}
 		}
 	}()
 	return fn(c, st)
+}
+
+// panicInLibrary reports whether the frame that panicked (the first non-runtime frame below
+// the panic call) belongs to the library under test.
+func panicInLibrary(stack string) bool {
+	lines := strings.Split(stack, "\n")
+	seenPanic := false
+	for _, l := range lines {
+		if !seenPanic {
+			if strings.HasPrefix(l, "panic(") {
+				seenPanic = true
+			}
+			continue
+		}
+		if strings.HasPrefix(l, "github.com/AsaiYusuke/jsonpath.") {
+			return true
+		}
+		if strings.HasPrefix(l, "verif/harness/") {
+			return false
+		}
+	}
+	return true
 }
 
 func trimStack(b []byte) string {
